@@ -112,7 +112,10 @@ Definition pf07 (c : adm_case) :=
   negb (P07 (ac_cfg c) (table_ev c) (ac_req c) (ac_world c) (ac_obs c)
         && P07_expiry_reported (ac_cfg c) (ac_req c) (ac_world c) (ac_obs c)).
 Definition pf08 (c : adm_case) := negb (P08 (ac_cfg c) (table_ev c) (ac_req c) (ac_world c) (ac_obs c)).
-Definition pf09 (c : adm_case) := negb (P09 (ac_cfg c) (table_ev c) (ac_req c) (ac_world c) (ac_obs c) (ac_barepod c)).
+(** C09 also demands that the template's findings are the *correct* ones for its warn/audit policies: P08 on controller requests *)
+Definition pf09 (c : adm_case) :=
+  negb (P09 (ac_cfg c) (table_ev c) (ac_req c) (ac_world c) (ac_obs c) (ac_barepod c))
+  || (is_controller (ac_req c) && negb (P08 (ac_cfg c) (table_ev c) (ac_req c) (ac_world c) (ac_obs c))).
 Definition pf10 (c : adm_case) := negb (P10 (ac_cfg c) (ac_req c) (ac_world c) (ac_obs c) (ac_create c) (ac_nosub c)).
 Definition pf11 (c : adm_case) := negb (P11 (ac_cfg c) (table_ev c) (ac_req c) (ac_world c) (ac_obs c)).
 Definition pf11cs (c : adm_case) := negb (P11_control_sets (ac_cfg c) (table_ev c) (ac_req c) (ac_world c) (ac_obs c)).
